@@ -37,4 +37,6 @@ def buildpath(context, path, strict=False):
 def within_directory(path, directory):
     suffix = path.relpath(directory.parent(), localize=False)
     suffix = re.sub(r'(^|/)\.\.(?=/|$)', r'\1PAR', suffix)
-    return directory.append(suffix)
+    # The suffix is always relative; keep a leading `~` component from being
+    # expanded to the user's home directory.
+    return directory.append('./' + suffix)
